@@ -1279,7 +1279,35 @@ type cellRef struct {
 	typ  types.Type
 }
 
+// ghostStateItem: `rdstate(x)` in a modifies clause names the abstract state of the stream / hash object x.
+func (env *SpecEnv) ghostStateItem(x ast.Expr) (string, bool) {
+	c, ok := x.(*ast.CallExpr)
+	if !ok {
+		return "", false
+	}
+	if id, ok := c.Fun.(*ast.Ident); !ok || id.Name != "rdstate" || len(c.Args) != 1 {
+		return "", false
+	}
+	v := env.eval(c.Args[0])
+	if iv, isI := v.(*IfaceVal); isI && iv.null != nil && iv.null.IsConst() && iv.null.Val.Sign() != 0 {
+		return "", true // nil reader: nothing to modify
+	}
+	id, ok := env.e.objID(v)
+	if !ok {
+		if iv, isI := v.(*IfaceVal); isI && iv.dyn != nil {
+			if _, isPtr := underlying(iv.dyn).(*types.Pointer); !isPtr {
+				return "", true // a value of a stateless type: nothing to modify
+			}
+		}
+		env.fail("modifies rdstate(%s): not a stream / hash object", exprString(c.Args[0]))
+	}
+	return id, true
+}
+
 func (env *SpecEnv) lvalueCells(x ast.Expr) (cells []cellRef, dyn []*SliceVal) {
+	if _, isGhost := env.ghostStateItem(x); isGhost {
+		return nil, nil
+	}
 	v := env.eval(x)
 	var rec func(v Value)
 	rec = func(v Value) {
